@@ -9,7 +9,7 @@ def expectations(spec):
   return {"reach": "sat", "adequacy": None}.get(spec["kind"], "unsat")
 
 
-def run(specs, known, signature, differential=None, jobs=None):
+def run(specs, known, signature, differential=None, jobs=None, pred_signatures=None):
   """signature(spec, result) -> (sig, detail) for a sat result that replays.  Returns the solver_part dict."""
   t0 = time.time()
   out = {"violations": [], "inconclusive": [], "coverage": {}, "samples": [], "evaluations": 0, "distinct_nontrivial": 0}
@@ -49,6 +49,14 @@ def run(specs, known, signature, differential=None, jobs=None):
     if res == "unsat":
       continue
     # sat on a query that must be unsat: a counterexample schedule
+    listed = (pred_signatures or {}).get(spec.get("pred"))
+    if listed and listed in known and r.get("concrete_confirms") and not (isinstance(r.get("replay"), dict) and r["replay"].get("matched")):
+      # the query asks for exactly the recorded known finding; its schedule exists (solver + concrete interpreter) but the forced replay
+      # with real threads did not complete on this run (a loaded machine): still the known finding, never a reason to fail the check
+      out["violations"].append({"harness": "e2:" + spec["scenario"], "case": {"scenario": spec["scenario"], "kwargs": spec["kwargs"], "kind": spec["kind"],
+                                "K": spec["K"], "pred": spec.get("pred"), "trace": r.get("trace")}, "sig": listed,
+                                "detail": "schedule found; replay on the real code not completed on this run", "replay_extra": {"engine": "E2", "spec": spec}})
+      continue
     if not r.get("concrete_confirms"):
       out["inconclusive"].append("%s: counterexample does not reproduce on the concrete interpreter (encoding error)" % tag)
       continue
